@@ -7,6 +7,8 @@
 #include <map>
 
 static std::map<int, ascon::byte_array *> g_vars;
+// the harness must not leak under LeakSanitizer: free whatever a plan left alive
+struct VarsCleaner { ~VarsCleaner(); } g_vars_cleaner;
 static ascon::byte_array &var(int id) {
     std::map<int, ascon::byte_array *>::iterator it = g_vars.find(id);
     if (it == g_vars.end()) fatal("no byte_array %d", id);
@@ -96,6 +98,7 @@ static void b_del(const Args &a) {
     int id = (int)a.num("obj"); delete g_vars[id]; g_vars.erase(id);
     Ev ev("ba.del"); ev.n("obj", id); log_all(ev); ev.emit();
 }
+VarsCleaner::~VarsCleaner() { for (std::map<int, ascon::byte_array *>::iterator it = g_vars.begin(); it != g_vars.end(); ++it) delete it->second; g_vars.clear(); }
 static void b_reset(const Args &) {
     for (std::map<int, ascon::byte_array *>::iterator it = g_vars.begin(); it != g_vars.end(); ++it) delete it->second;
     g_vars.clear(); Ev("Reset").emit();
